@@ -70,7 +70,7 @@ func init() {
 	cfgs["C20"] = &propCfg{
 		quickRuns: 24000, thoroughRuns: 4000000,
 		quickBudget: 150 * time.Second, thoroughBudget: 14 * time.Minute,
-		raceShare: 2, singleProc: true, freshEvery: 16,
+		raceShare: 2, singleProc: true, freshEvery: 16, innerShare: 2,
 		requiredProbes: []string{
 			"wl_css.Lexer", "wl_css.Parser", "wl_html.Lexer", "wl_xml.Lexer", "wl_json.Parser", "wl_js.Lexer", "wl_js.Parse+print+Walk", "wl_strconv", "wl_helpers",
 			"wl_Position/Error", "wl_Input+buffer.Lexer", "wl_StreamLexer", "wl_Indenter", "wl_BinaryWriter/Reader", "wl_buffer.Writer/Reader+misc", "wl_js.AST strings",
